@@ -2181,7 +2181,14 @@ class MultiUserChannelMatrixExtInt(  # pylint: disable=R0904
             A numpy array where each element contains the received data (a
             2D numpy array) of a user.
         """
-        input_data = np.hstack([data, ext_int_data])
+        # `data` and `ext_int_data` can be lists (or arrays) of 2D numpy
+        # arrays: gather the blocks in one array of arrays (np.hstack would
+        # try to concatenate the blocks themselves when they are given as
+        # lists of arrays with equal dimensions)
+        blocks = list(data) + list(ext_int_data)
+        input_data = np.empty(len(blocks), dtype=np.ndarray)
+        for i, block in enumerate(blocks):
+            input_data[i] = block
         return MultiUserChannelMatrix.corrupt_data(self, input_data)
 
     def corrupt_concatenated_data(self, data: np.ndarray) -> np.ndarray:
